@@ -5,7 +5,7 @@ from symx.api import *
 
 PROPERTY = 'C06'
 LEVEL = 'other'
-FILES = ['mesonbuild/utils/universal.py', 'mesonbuild/mintro.py', 'mesonbuild/backend/ninjabackend.py', 'mesonbuild/options.py']
+FILES = ['mesonbuild/utils/universal.py', 'mesonbuild/mintro.py', 'mesonbuild/backend/ninjabackend.py', 'mesonbuild/backend/backends.py', 'mesonbuild/options.py', 'mesonbuild/coredata.py']
 ENCODED = ['mesonlib.replace_if_different (content comparison decides whether the destination is touched; file system = a dictionary with a per-file generation counter)',
            'mintro._list_buildoptions (options inserted into the store in a symbolic order)', 'NinjaBuildElement.add_dep/add_orderdep/write (dependencies inserted in a symbolic order)',
            'mesonlib.OrderedSet / unique_list (first-occurrence order, whatever the duplicates)', 'EnvironmentVariables.set/unset/get_env/hash (digest input of the exe-wrapper pickle name; the hasher is a recorder)', 'options.OptionKey.__lt__/__le__/__gt__/__ge__/__eq__ (what every sorted-by-key writer relies on)']
@@ -21,7 +21,7 @@ MANIFEST = dict(
     text='Bounded symbolic decision, writer by writer, of the mechanisms C06 rests on: output text is invariant under every permutation of the insertion order of the collections '
          'feeding _list_buildoptions and the Ninja dependency lists, OrderedSet/unique_list keep first-occurrence order, and replace_if_different touches the destination iff the '
          'content differs. Whole-configuration determinism across hash seeds, environment and directory order is NOT decided.',
-    note='Partial claim (writer level). Trusted: symx engine, z3, the dictionary file-system model. Bounds: all permutations of 3 options / 4 dependencies; contents <= 2 characters.')
+    note='Partial claim (writer level). Trusted: symx engine, z3, the dictionary file-system model. Bounds: all permutations of 3 options / 4 dependencies; contents <= 2 characters; do_conf_file twice on templates of <= 4 characters; get_regen_filelist under an adversarial set iteration order.')
 
 M = types.SimpleNamespace()
 
